@@ -201,6 +201,11 @@ func c19Run(c c19in) func(w *World) []Violation {
 			spec.Method = "GET"
 			wantStatus = 101
 			threaded = c.ending
+		case "refused-by-draining-target":
+			// the only target of the service is draining when the request claims it (the state the open C02/C07
+			// finding reaches by interleaving; set directly here): proxy-generated 503, no target used
+			wantTarget, wantStatus = "", 503
+			threaded = c.ending
 		}
 		if c.method == "HEAD" && (strings.HasPrefix(c.ending, "upgrade") || c.ending == "413" || c.ending == "500-response-too-large" || c.ending == "cut-mid-body") {
 			return nil
@@ -233,6 +238,22 @@ func c19Run(c c19in) func(w *World) []Violation {
 			time.Sleep(100 * time.Millisecond)
 			w.Net.CloseConnsOf(target)
 			time.Sleep(50 * time.Millisecond)
+		case "refused-by-draining-target":
+			var tg *Target
+			w.Router.serviceLock.RLock()
+			if sv := w.Router.services.Get(svc); sv != nil {
+				if lb, _, _ := sv.loadBalancers(); lb != nil && len(lb.all) > 0 {
+					tg = lb.all[0]
+				}
+			}
+			w.Router.serviceLock.RUnlock()
+			if tg == nil {
+				add("scenario-mismatch ending="+c.ending, "no target")
+				return vs
+			}
+			prev := tg.updateState(TargetStateDraining)
+			o = w.Do(spec)
+			tg.updateState(prev)
 		}
 		if o == nil || !o.Done {
 			add("request-did-not-finish", fmt.Sprint(o))
@@ -300,6 +321,14 @@ func c19Run(c c19in) func(w *World) []Violation {
 		} else if fmt.Sprint(r["request_id"]) == "" {
 			add("field request_id ending="+c.ending, "empty request id")
 		}
+		// no target used: nothing of a target's configured headers may be attributed to the request
+		if wantTarget == "" && wantSvc == svc {
+			for k := range r {
+				if (strings.HasPrefix(k, "req_x_") || strings.HasPrefix(k, "resp_x_") || k == "resp_set_cookie") && c19Hdrs[c.hdr].name != "none" {
+					add(fmt.Sprintf("field %s ending=%s", k, c.ending), fmt.Sprintf("no target served the request but the record carries %s=%v", k, r[k]))
+				}
+			}
+		}
 		// configured headers (only when the request was proxied by the lN service)
 		if wantTarget == target {
 			h := c19Hdrs[c.hdr]
@@ -326,7 +355,7 @@ func c19Run(c c19in) func(w *World) []Violation {
 func c19Cases(tier string) []ECase {
 	endings := []string{"served-0", "served-1", "served-100k", "served-chunked", "served-cookies", "early-hints-then-404", "no-service", "tls-refused", "redirect", "stopped", "stopped-custom",
 		"no-healthy-target", "413", "500-response-too-large", "502-close", "502-garbage", "504-target-timeout", "cut-mid-body", "client-abort-waiting",
-		"paused-released", "paused-out", "drained-504", "upgrade-closed-by-target"}
+		"paused-released", "paused-out", "drained-504", "upgrade-closed-by-target", "refused-by-draining-target"}
 	var cases []ECase
 	for _, e := range endings {
 		for _, m := range []string{"GET", "POST", "HEAD"} {
@@ -348,7 +377,7 @@ func checkC19(t *testing.T, job *Job, res *Result) {
 	if job.Replay != nil {
 		tier = job.Replay.Tier
 	}
-	res.Rule = "23 endings (served with 5 body shapes, 103 early hints before the final status, 404, TLS refused, redirect, stopped built-in/custom page, no healthy target, 413, 500 over limit, 502 close/garbage, 504 target timeout, cut mid-body, client abort (499), paused then released, paused-out 504, drained 504, upgrade closed by the target) x method {GET, POST, HEAD} x query {none, a=1;b} x client request id given or not x 5 log-header configurations; slog default handler replaced by a capturing handler before Server.buildHandler; oracle: exactly one Request record per request with status, byte count, method, host, path, query, request id, service, target and configured headers equal to what the client and the target observed"
+	res.Rule = "24 endings (served with 5 body shapes, 103 early hints before the final status, 404, TLS refused, redirect, stopped built-in/custom page, no healthy target, 413, 500 over limit, 502 close/garbage, 504 target timeout, cut mid-body, client abort (499), paused then released, paused-out 504, drained 504, upgrade closed by the target, refused by a draining target) x method {GET, POST, HEAD} x query {none, a=1;b} x client request id given or not x 5 log-header configurations; slog default handler replaced by a capturing handler before Server.buildHandler; oracle: exactly one Request record per request with status, byte count, method, host, path, query, request id, service, target and configured headers equal to what the client and the target observed"
 	res.Bounds = "see rule"
 	runE(t, job, res, &ESpec{Prop: "C19", Setup: c19Setup, Cases: c19Cases(tier), Batch: 120, Log: true})
 	// the same requests against a proxy restored from the state file those deployments wrote
